@@ -222,7 +222,7 @@ def run_c02(ctx):
     if quick:
         scs = demux_scenarios(ctx, ['Demux_gen_psi_quick.cfg', 'Demux_gen_pes_quick.cfg'], 'dg', sample=12000)
     else:
-        scs = demux_scenarios(ctx, ['Demux_gen_psi_deep.cfg', 'Demux_gen_pes_deep.cfg', 'Demux_gen_big.cfg'], 'dg')
+        scs = demux_scenarios(ctx, ['Demux_gen_psi_deep.cfg', 'Demux_gen_pes_deep.cfg', 'Demux_gen_big.cfg'], 'dg', sample=200000)
     rnd = harness_gen(ctx, 'demux', 400 if quick else 20000, ctx.seed, 4)
     return pipeline(
         ctx, 'Mon_C02', 'demux', scs + rnd,
@@ -258,9 +258,9 @@ def fault_variants(sc, kinds=('dup', 'drop'), every=1):
 def run_c06(ctx):
     build_harness(ctx)
     quick = ctx.tier == 'quick'
-    model_check(ctx, 'MC_Demux', 'Demux_c06.cfg')
+    model_check(ctx, 'MC_Demux', 'Demux_c06.cfg' if quick else 'Demux_c06_deep.cfg')
     # (a) TLC: behaviours of the generator x channel x demuxer model with one dup/drop anywhere
-    tl = demux_scenarios(ctx, ['Demux_gen_c06_quick.cfg' if quick else 'Demux_gen_c06_deep.cfg'], 'fg', sample=6000 if quick else None)
+    tl = demux_scenarios(ctx, ['Demux_gen_c06_quick.cfg' if quick else 'Demux_gen_c06_deep.cfg'], 'fg', sample=6000 if quick else 150000)
     tl = [s for s in tl if any('f' in p for p in s['pkts'])]
     # (b) every single duplication and deletion position of clean streams (TLC-generated small ones and seeded random ones)
     clean = demux_scenarios(ctx, ['Demux_gen_psi_quick.cfg', 'Demux_gen_pes_quick.cfg'], 'cg', sample=300 if quick else 6000)
